@@ -295,6 +295,11 @@ impl<R: Rng + Send> Multiplexor<R> {
             if let Some(s) = stream {
                 return Ok(s);
             }
+            // The task also answers pending requests with `None` when it winds down.
+            // That is not a rejection by the peer: report the closure instead.
+            if self.tx_msg_tx.is_closed() {
+                return Err(Error::Closed);
+            }
             // For testing purposes. Make sure the previous flow ID is gone
             debug_assert!(!self.flows.read().contains_key(&flow_id));
         }
